@@ -91,7 +91,8 @@ def gen_desc(rng, tier, force=None):
         if rng.random() < (0.6 if nat == 0 else 0.15):
             c["priv"] = True  # a private annotation (`_cache: dict = None`), not managed
         if i + 1 < k and (force == "mid" and (i == 0 or rng.random() < 0.5) or force != "mid" and rng.random() < 0.25):
-            c["mid"] = {"new": rng.random() < 0.3}  # plain class M<i>(C<i>) between C<i> and C<i+1>
+            # plain class M<i>(C<i>) between C<i> and C<i+1> (deep: two plain levels M<i>, N<i>)
+            c["mid"] = {"new": rng.random() < 0.3, "deep": rng.random() < 0.3}
         classes.append(c)
     # a key needs a default so that C() works: only plain int attributes of the class itself
     for c in classes:
@@ -195,7 +196,9 @@ def run_one(job):
     return {"h": h, "term": term if first else None, "steps": r["steps"], "deadlock": r["deadlock"],
             "stuck": r["stuck"], "overrun": r["overrun"], "same": (eager == lazy and out_e == out_l),
             "eager_ok": all(o[0] == 1 for o in out_e), "lines": sorted(lines), "nevents": len(events),
-            "outs": [o[0] for o in out_l], "key": hashlib.sha1(key.encode()).hexdigest()[:12],
+            "outs": [o[0] for o in out_l],
+            "errors": [(": ".join(o[1:3]) if o is not None and o[0] == "exc" else None) for o in r["outcome"]],
+            "key": hashlib.sha1(key.encode()).hexdigest()[:12],
             "preempted": sum(1 for a, b in zip(r["chosen"], r["chosen"][1:]) if a != b)}
 
 
@@ -478,8 +481,8 @@ def main2(tier, replay, pool):
         res, code, logs = replay_case(r, pool)
         print("uses:", r["uses"], "policy:", r["policy"])
         print("replay:", f"still failing code={code} ({MEANING.get(code)})" if code else "passes now", logs)
-        print("lazy == eager:", res["same"], "thread outcomes ok:", res["outs"], "steps:", res["steps"],
-              "deadlock:", res["deadlock"])
+        print("lazy == eager:", res["same"], "thread outcomes ok:", res["outs"], "exceptions:", res.get("errors"),
+              "steps:", res["steps"], "deadlock:", res["deadlock"])
         return 1 if code else 0
     chk.proofs()
     rng = chk.rng
@@ -581,8 +584,10 @@ def main2(tier, replay, pool):
             d2, u2, p2, res = d, u, p, results[i]
         import c19_impl as I
         what = (f"lazy bootstrapping {'differs from the eager sequential result' if code == 2 else 'differs from the model'}: "
-                f"uses={u2} policy={p2} outcomes_ok={res['outs']} deadlock={res['deadlock']} classes={d2['classes']}")
+                f"uses={u2} policy={p2} outcomes_ok={res['outs']} exceptions={res.get('errors')} "
+                f"deadlock={res['deadlock']} classes={d2['classes']} sub={d2.get('sub')} names={d2.get('names')}")
         chk.violation(what, {"classes": d2, "uses": u2, "policy": p2, "code": code, "meaning": MEANING.get(code),
+                             "exceptions_seen_by_threads": res.get("errors"),
                              "source": I.render(d2, False), "replay": "bin/check C19 --replay <this file>"},
                       sig={"code": code, "generator": meta[i][0]}, no_input=(code != 2))
     for lg in logs:
